@@ -680,6 +680,9 @@ def parse_template(path):
                     spec.setdefault("closures", []).append({"n": int(parts[0]), "params": parts[1], "ret": parts[2],
                                                             "ensures": parts[3] if len(parts) > 3 else "-",
                                                             "let": parts[4] if len(parts) > 4 else "-"})
+                elif key == "cut-before-re":
+                    rx, repl = [x.strip() for x in val.split(" | ")]
+                    spec["cut"] = (rx, repl)
                 elif key == "f64cmp":
                     spec["f64cmp"] = True
                 elif key == "epilogue":
@@ -909,6 +912,37 @@ def generate(unit, template_path, canary=False, extra_fns=()):
                 newsig += " " + wh.replace("\n", " ")
             # --- body rewrites
             body = rule_R4(body, g.rewrites, where)
+            if re.search(r"\(\s*mut\s+self\b", newsig):
+                # R14: `fn f(mut self, ..) { B }` -> `fn f(self, ..) { let mut self_ = self; B[self := self_] }` (alpha-renaming
+                # of a by-value binding; Verus has no `mut self`)
+                newsig = re.sub(r"\(\s*mut\s+self\b", "(self", newsig, count=1)
+                bm = mask_rust(body)
+                out, last = [], 0
+                for mm in re.finditer(r"\bself\b", bm):
+                    out.append(body[last:mm.start()]); out.append("self_"); last = mm.end()
+                out.append(body[last:])
+                body = "".join(out)
+                body = "{ let mut self_ = self;" + body[1:]
+                g.rewrites.append({"rule": "R14", "where": where, "before": "mut self", "after": "self + `let mut self_ = self;`, body self -> self_"})
+            if spec.get("cut"):
+                # R16 tail abstraction: everything from the first top-level statement matching the regex to the end of the
+                # function is replaced by `return <havoc>;` - any result is allowed on those paths (over-approximation for
+                # partial correctness; DROPPED: what the tail computes, its termination and panic-freedom). Only for
+                # functions without `&mut` parameters (nothing else the tail could change).
+                rx, repl = spec["cut"]
+                if re.search(r"&\s*mut\b", newsig):
+                    raise AnchorLost(f"{where}: R16 not applicable to a function with &mut parameters")
+                bm = mask_rust(body)
+                hit = None
+                for mm in re.finditer(rx, bm):
+                    depth = bm[:mm.start()].count("{") - bm[:mm.start()].count("}")
+                    if depth == 1:
+                        hit = mm
+                        break
+                if hit is None:
+                    raise AnchorLost(f"{where}: cut anchor not found at statement level: `{rx}`")
+                g.rewrites.append({"rule": "R16", "where": where, "before": f"tail from /{rx}/ ({line_of(body, hit.start())} lines into the body)", "after": f"return {repl};"})
+                body = body[:hit.start()] + f"return {repl}; }}"
             for rule, frm, to, allocc in spec["rewrites"]:
                 body = apply_rewrite(body, rule, frm, to, allocc, g.rewrites, where)
             if spec.get("f64cmp"):
@@ -1041,6 +1075,27 @@ def generate(unit, template_path, canary=False, extra_fns=()):
                         elif ch == "{" and depth == 0:
                             break
                         k += 1
+                    absn = [c["text"] for c in byloop[n] if c["kind"] == "abstract"]
+                    if absn:
+                        # R13: the loop is replaced by a havoc of every mutable binding it mentions (over-approximation of
+                        # its effect for partial correctness; DROPPED: termination and panic-freedom of the loop)
+                        kw = loops[n]
+                        close = match_brace(bmask, k)
+                        lbody = bmask[k:close + 1]
+                        if re.search(r"\breturn\b|\?|\bbreak\s+'|\bcontinue\s+'", lbody):
+                            raise AnchorLost(f"{where}: loop #{n} has an early exit (return / ? / labelled break): R13 not applicable")
+                        muts = set(re.findall(r"(?<![&\w])mut\s+(\w+)", bmask[:kw] + " " + newsig))
+                        if re.search(r"&\s*mut\s+self\b", newsig):
+                            muts.add("self")
+                        muts.discard("self_") if False else None
+                        repl = " ".join(absn)
+                        for v in sorted(muts):
+                            if re.search(r"\b" + re.escape(v) + r"\b", bmask[kw:close + 1]) and not re.search(r"\b" + re.escape(v) + r"\s*=[^=]", repl):
+                                raise AnchorLost(f"{where}: loop #{n} mentions mutable `{v}` which the R13 replacement does not havoc")
+                        g.rewrites.append({"rule": "R13", "where": where, "before": body[kw:close + 1][:200], "after": repl})
+                        body = body[:kw] + repl + " " + body[close + 1:]
+                        bmask = bmask[:kw] + " " * (len(repl) + 1) + bmask[close + 1:]
+                        continue
                     itn = [c["text"] for c in byloop[n] if c["kind"] == "iter"]
                     if itn:
                         # `for x in EXPR` -> `for x in <name>: EXPR` (names Verus' ghost iterator; annotation only)
@@ -1081,7 +1136,7 @@ def generate(unit, template_path, canary=False, extra_fns=()):
                     g.emit(f"        {c['text']},", {"kind": "clause", "file": trel, "line": c["tline"], "id": cid})
             g.emit_mapped(body, spec["file"], line_of(src.text, bo))
             for c in spec["loops"]:
-                if c["kind"] == "iter":
+                if c["kind"] in ("iter", "abstract"):
                     continue
                 n = counters.get("loop_" + c["kind"], 0)
                 counters["loop_" + c["kind"]] = n + 1
